@@ -203,7 +203,11 @@ def install(I):
         items = I.iter_concrete(v)
         if items is not None:
             return ex.alloc(HList(items))
-        return ex.alloc(HSymList(I.as_seq(v)))
+        r = ex.alloc(HSymList(I.as_seq(v)))
+        if isinstance(v, VRef) and isinstance(ex.heap[v.addr], HSymList):
+            # list(x) is a shallow copy: the element objects are shared with x
+            ex.heap[r.addr].shares = [v.addr] + list(getattr(ex.heap[v.addr], 'shares', []))
+        return r
 
     @reg('dict')
     def _dict(ex, a, k):
